@@ -2,8 +2,10 @@
    byte strings stay the extracted inductive datatypes. *)
 Require Extraction.
 Require Import ExtrOcamlBasic.
-From GP Require Import Bytes Generated Cli.
+From GP Require Import Bytes Generated Cli FsProto Discover.
 
 Extraction "gpmodel.ml"
   check_generated_code
-  run all_errors exit_status api_apply.
+  run all_errors exit_status api_apply
+  check_run run_ops
+  find_files abs_string.
